@@ -25,7 +25,7 @@ package coroutine
 //@   arith int
 //@   norte
 //@   nocover
-//@   requires *co != nil && param0 != nil
+//@   requires *co != nil && param0 != nil && param1 != nil
 //@   modifies everything()
 //@   exits any
 //@   assert_before_call Resume: $caller == param0 && $t == *co
